@@ -856,9 +856,18 @@ static void case_hash_split(uint64_t idx, vf_rng *r)
     }
 }
 
+/* i < 12: the fixed small lengths; 100 + k: the k-th large length (around 2^16 and, in thorough, 2^20: a length or index kept in a
+   16-bit quantity, a block-wise loop with a remainder, a table index computed from a wide running value) */
 static size_t draw_len(vf_rng *r, unsigned i)
 {
     static size_t const fixed[] = {0, 1, 2, 3, 7, 8, 9, 255, 256, 257, 4095, 4096};
+    static size_t const large[] = {65535, 65536, 65537, 131075, 70001, 1048575, 1048577};
+    if (i >= 100)
+    {
+        unsigned k = i - 100, nl = vf.tier ? 7 : 4;
+        VF_COUNT("large-message-lengths");
+        return large[k % nl];
+    }
     if (i < sizeof(fixed) / sizeof(fixed[0])) { return fixed[i]; }
     /* bit length uniform in 0..12, then uniform below */
     unsigned b = (unsigned)vf_below(r, 13);
@@ -874,7 +883,7 @@ static void case_hash_long(uint64_t idx, vf_rng *r)
     mark = vf.jr->text_len;
     for (unsigned m = 0; m < 24; ++m)
     {
-        size_t n = draw_len(r, idx == 0 ? m : 99);
+        size_t n = draw_len(r, idx == 0 ? m : (idx == 1 && m < (vf.tier ? 7u : 4u)) ? 100 + m : 99);
         log_rewind(mark);
         blk_t S = blk_new(n + 1); /* text + NUL, exact */
         blk_t L;                  /* same text, no NUL, exact */
@@ -1005,7 +1014,7 @@ static void vf_case(uint64_t c, vf_rng *r)
         mark = vf.jr->text_len;
         for (unsigned m = 0; m < 12; ++m)
         {
-            size_t n = draw_len(r, p.arg == 0 ? m : 99);
+            size_t n = draw_len(r, p.arg == 0 ? m : (p.arg == 1 && m < (vf.tier ? 7u : 4u)) ? 100 + m : 99);
             log_rewind(mark);
             for (unsigned wi = 0; wi < 4; ++wi)
             {
